@@ -526,10 +526,10 @@ Definition r_submit (n : node) (n' : node) (o : list output) : Prop :=
 
 Definition rspec (n : node) (inp : input) (n' : node) (o : list output) : Prop :=
   ae_from n' o /\
-  ((rep_same n n' /\ no_ars o) \/ r_reset n n' o \/ r_success n inp n' o \/ r_failure n inp n' o \/ r_submit n n' o).
+  ((rep_same n n' /\ no_ars o /\ (role n' = Leader -> role n = Leader)) \/ r_reset n n' o \/ r_success n inp n' o \/ r_failure n inp n' o \/ r_submit n n' o).
 
-Lemma rspec_same n inp n' o : rep_same n n' -> no_ars o -> no_ae o -> rspec n inp n' o.
-Proof. intros A B C. split; [apply no_ae_from, C|left; auto]. Qed.
+Lemma rspec_same n inp n' o : rep_same n n' -> (role n' = Leader -> role n = Leader) -> no_ars o -> no_ae o -> rspec n inp n' o.
+Proof. intros A R B C. split; [apply no_ae_from, C|left; auto]. Qed.
 
 Lemma led_reset_transfer n n1 n2 : rep_same n n1 -> peers n1 = peers n -> led_reset n1 n2 -> led_reset n n2.
 Proof.
@@ -555,7 +555,7 @@ Proof.
     + right. left. split; [exact NL|]. split; [exact R5|]. split.
       * apply (led_reset_transfer n n1 n2 A); [destruct n; reflexivity|exact LR].
       * apply no_ars_app; [exact H2|apply only_ae_no_ars, OA].
-  - cbn [fst snd]. apply rspec_same; [exact A|apply no_ars_app; [exact H2|noars]|apply no_ae_app; [exact H1|noae]].
+  - cbn [fst snd]. apply rspec_same; [exact A|intros R; congruence|apply no_ars_app; [exact H2|noars]|apply no_ae_app; [exact H1|noae]].
 Qed.
 
 Lemma node_step_rspec n inp :
@@ -563,25 +563,27 @@ Lemma node_step_rspec n inp :
   rspec n inp (fst (node_step n inp)) (snd (node_step n inp)).
 Proof.
   intros NAE. destruct inp as [c|c|src m|cmd]; cbn [node_step].
-  - unfold handle_timeout. destruct c; cbn [fst snd]; [apply rspec_same; [apply rep_same_refl|noars|noae]|].
-    destruct (role_eqb (role n) Leader) eqn:E; cbn [fst snd]; [apply rspec_same; [apply rep_same_refl|noars|noae]|].
+  - unfold handle_timeout. destruct c; cbn [fst snd]; [apply rspec_same; [apply rep_same_refl|auto|noars|noae]|].
+    destruct (role_eqb (role n) Leader) eqn:E; cbn [fst snd]; [apply rspec_same; [apply rep_same_refl|auto|noars|noae]|].
     apply start_election_rspec, role_eqb_false, E.
-  - unfold handle_heartbeat. destruct c; cbn [fst snd]; [apply rspec_same; [apply rep_same_refl|noars|noae]|].
-    destruct (role_eqb (role n) Leader) eqn:E; cbn [negb fst snd]; [|apply rspec_same; [apply rep_same_refl|noars|noae]].
+  - unfold handle_heartbeat. destruct c; cbn [fst snd]; [apply rspec_same; [apply rep_same_refl|auto|noars|noae]|].
+    destruct (role_eqb (role n) Leader) eqn:E; cbn [negb fst snd]; [|apply rspec_same; [apply rep_same_refl|auto|noars|noae]].
     apply role_eqb_true in E. split.
     + apply ae_from_app; [apply send_append_entries_from, E|apply no_ae_from; noae].
-    + left. split; [apply rep_same_refl|]. apply no_ars_app; [apply only_ae_no_ars, send_append_entries_only_ae|noars].
+    + left. split; [apply rep_same_refl|]. split; [|auto]. apply no_ars_app; [apply only_ae_no_ars, send_append_entries_only_ae|noars].
   - destruct m as [t cand lli llt|t g voter|t lead pli plt ents lc|t s f mi]; cbn [handle_msg].
     + (* RequestVote *)
-      unfold handle_request_vote. destruct (negb (zmem src (peers n))); cbn [fst snd]; [apply rspec_same; [apply rep_same_refl|noars|noae]|].
+      unfold handle_request_vote. destruct (negb (zmem src (peers n))); cbn [fst snd]; [apply rspec_same; [apply rep_same_refl|auto|noars|noae]|].
       set (n1 := if t >? term n then step_down n t else n).
       assert (R1 : rep_same n n1) by (unfold n1; destruct (t >? term n); [apply step_down_rep|apply rep_same_refl]).
+      assert (RR : role n1 = Leader -> role n = Leader).
+      { unfold n1. destruct (t >? term n); [|auto]. intros R. rewrite (proj1 (step_down_fields n t)) in R. discriminate. }
       destruct (vote_ok n1 t cand lli llt); cbn [fst snd].
-      * apply rspec_same; [eapply rep_same_trans; [exact R1|]; destruct n1; rep_simpl|noars|noae].
-      * apply rspec_same; [exact R1|noars|noae].
+      * apply rspec_same; [eapply rep_same_trans; [exact R1|]; destruct n1; rep_simpl|intros R; apply RR; destruct n1; exact R|noars|noae].
+      * apply rspec_same; [exact R1|exact RR|noars|noae].
     + (* VoteResponse *)
-      unfold handle_vote_response. destruct (t >? term n); cbn [fst snd]; [apply rspec_same; [apply step_down_rep|noars|noae]|].
-      destruct (negb (role_eqb (role n) Candidate) || negb (t =? term n)) eqn:E; cbn [fst snd]; [apply rspec_same; [apply rep_same_refl|noars|noae]|].
+      unfold handle_vote_response. destruct (t >? term n); cbn [fst snd]; [apply rspec_same; [apply step_down_rep|intros R; rewrite (proj1 (step_down_fields n t)) in R; discriminate|noars|noae]|].
+      destruct (negb (role_eqb (role n) Candidate) || negb (t =? term n)) eqn:E; cbn [fst snd]; [apply rspec_same; [apply rep_same_refl|auto|noars|noae]|].
       apply orb_false_iff in E as [E1 _]. apply negb_false_iff, role_eqb_true in E1.
       set (n1 := if g then _ else n).
       assert (F1 : rep_same n n1 /\ role n1 = role n /\ peers n1 = peers n) by (unfold n1; destruct g; destruct n; repeat split).
@@ -593,13 +595,13 @@ Proof.
         destruct (become_leader n1) as [n2 o2]. cbn [fst snd] in *. split; [exact AF|].
         right. left. split; [congruence|]. split; [exact R5|]. split; [|apply only_ae_no_ars, OA].
         apply (led_reset_transfer n n1 n2 A P LR).
-      * cbn [fst snd]. apply rspec_same; [exact A|noars|noae].
+      * cbn [fst snd]. apply rspec_same; [exact A|intros R; congruence|noars|noae].
     + exfalso. eapply NAE. reflexivity.
     + (* AppendEntriesResponse *)
-      unfold handle_append_response. destruct (t >? term n) eqn:Et; cbn [fst snd]; [apply rspec_same; [apply step_down_rep|noars|noae]|].
-      destruct (negb (role_eqb (role n) Leader)) eqn:E; cbn [fst snd]; [apply rspec_same; [apply rep_same_refl|noars|noae]|].
+      unfold handle_append_response. destruct (t >? term n) eqn:Et; cbn [fst snd]; [apply rspec_same; [apply step_down_rep|intros R; rewrite (proj1 (step_down_fields n t)) in R; discriminate|noars|noae]|].
+      destruct (negb (role_eqb (role n) Leader)) eqn:E; cbn [fst snd]; [apply rspec_same; [apply rep_same_refl|auto|noars|noae]|].
       apply negb_false_iff, role_eqb_true in E.
-      destruct (t <? term n) eqn:Et2; cbn [fst snd]; [apply rspec_same; [apply rep_same_refl|noars|noae]|].
+      destruct (t <? term n) eqn:Et2; cbn [fst snd]; [apply rspec_same; [apply rep_same_refl|auto|noars|noae]|].
       assert (t = term n) by lia. subst t.
       destruct s; cbn [fst snd].
       * set (n1 := set_match_index (set_next_index n (aset f (mi + 1) (next_index n))) (aset f mi (match_index n))).
@@ -632,7 +634,7 @@ Proof.
               intros d t0 f0 mi0. unfold append_entries_for. discriminate.
         -- split; [apply no_ae_from; noae|]. right. right. right. left. apply RF. noars.
   - unfold submit. destruct (negb (role_eqb (role (set_nfut n (nfut n + 1))) Leader)) eqn:E.
-    + apply rspec_same; [destruct n; rep_simpl|noars|noae].
+    + apply rspec_same; [destruct n; rep_simpl|destruct n; cbn; auto|noars|noae].
     + apply negb_false_iff, role_eqb_true in E.
       assert (RL : role n = Leader) by (destruct n; exact E).
       split; [apply no_ae_from; noae|]. right. right. right. right.
